@@ -62,8 +62,11 @@ class Scheduler:
 def make_input(rng, d, chunk, max_wf, kind=None, ns=None):
     kind = kind or str(rng.choice(["3B2", "NP2.4"]))
     ns = ns or int(rng.integers(12000, 30000))
-    rec = G.make(rng, kind=kind, ns=ns, gains=G.random_gains(rng), content="random")
+    rec = G.make(rng, kind=kind, ns=ns, gains=G.random_gains(rng), content="random", nsync=int(rng.choice([1, 1, 1, 0])))      # also recordings saved without the sync channel
     b = G.write(rec, Path(d) / "rec")
+    if rng.random() < 0.4:
+        from vlib import np2 as _np2
+        _np2.round_duration(b.with_suffix(".meta"), ns, rec.fs, rng)      # duration written with a few decimals
     lo, hi = OFF, ns - (LEN - OFF)          # valid: lo < s < hi
     nu = int(rng.integers(4, 12))
     times, clus, chans = [], [], []
@@ -230,7 +233,7 @@ def run_case(case):
             rk = [None, {"sort": False}, {"sort": True}, {"sort": False}][int(rng.integers(0, 4))]
             sort_flag = True if rk is None else rk["sort"]
             give_h = bool(rng.integers(0, 2))
-            label = (f"{rec.kind} {'cbin' if use_c else 'bin'} ns={rec.ns} chunk={chunk} max_wf={max_wf} spikes={times.size} (spike#0 at {times[0]}) reader_kwargs={rk}"
+            label = (f"{rec.kind} nsync={rec.nsync} {'cbin' if use_c else 'bin'} ns={rec.ns} chunk={chunk} max_wf={max_wf} spikes={times.size} (spike#0 at {times[0]}) reader_kwargs={rk}"
                      + (" h=given" if give_h else ""))
             xkw = {} if rk is None else {"reader_kwargs": dict(rk)}
             if give_h:
